@@ -68,3 +68,26 @@ void h_md_variant(void) {
   else if (kind == 5) { float f = vin_unbits32((uint32_t)be(in + 1, 4)); double d = (double)f; double got; memcpy(&got, &o.f7, 8); VASSERT(o.f2 == 5 && ((f != f) ? (got != got) : vbits64(got) == vbits64(d)), "float32: exact value"); VWITNESS("f32"); }
   else if (kind == 6) { uint64_t b = be(in + 1, 8); double d; memcpy(&d, &b, 8); double got; memcpy(&got, &o.f7, 8); VASSERT(o.f2 == 5 && ((d != d) ? (got != got) : vbits64(got) == b), "float64: exact value"); VWITNESS("f64"); }
 }
+
+/* ---- readKey: only the str formats are keys; length decoding for fixstr / str8 / str16 / str32 */
+void h_md_key(void) {
+  uint8_t in[NB]; for (unsigned i = 0; i < NB; i++) in[i] = vin_u8();
+  uint32_t n = vin_u32(); VASSUME(n <= NB);
+  struct S_MOut o; memset(&o, 0, sizeof o);
+  w_md_read_key(in, n, &o);
+  VOBS(o.f0); VOBS(o.f1); VOBS(o.f3);
+  VASSERT(o.f0 <= 5 && o.f1 <= n, "documented code; never reads beyond the input");
+  if (n == 0) { VASSERT(o.f0 == INCOMPLETE, "no byte: IncompleteInput"); return; }
+  uint8_t c = in[0]; unsigned sizeBytes = 0; uint64_t len = 0; int isstr = 0;
+  if ((c & 0xe0) == 0xa0) { isstr = 1; len = c & 0x1f; } else if (c == 0xd9 || c == 0xda || c == 0xdb) { isstr = 1; sizeBytes = 1u << (c - 0xd9); }
+  if (!isstr) { VASSERT(o.f0 == INVALID, "a map key that is not a string: InvalidInput"); VWITNESS("nonstring"); return; }
+  if (1 + sizeBytes > n) { VASSERT(o.f0 == INCOMPLETE, "truncated length: IncompleteInput"); return; }
+  if (sizeBytes) len = be(in + 1, sizeBytes);
+  unsigned hdr = 1 + sizeBytes;
+  if (len > MAXSTR) { VASSERT(o.f0 == NOMEM || o.f0 == INCOMPLETE, "a key longer than the available memory is refused, never Ok"); VWITNESS("huge"); return; }
+  if (hdr + len > n) { VASSERT(o.f0 == INCOMPLETE, "truncated key: IncompleteInput"); VWITNESS("trunc"); return; }
+  VASSERT(o.f0 == OK && o.f1 == hdr + len, "well-formed key: Ok, exactly its bytes consumed");
+  VASSERT(o.f3 == len, "key length is the announced one (all 5 bits of a fixstr header)");
+  for (unsigned i = 0; i < 16; i++) if (i < len) VASSERT(o.f8.e[i] == in[hdr + i], "key bytes verbatim (first 16 observed)");
+  if (c >= 0xb0 && c <= 0xbf) VWITNESS("fixstr16+"); else VWITNESS("ok");
+}
